@@ -67,8 +67,6 @@ def render(pos: tuple) -> str | None:
     segs: list[str] = []
     for i, p in enumerate(pos):
         if isinstance(p, str):
-            if p == "" and False:
-                return None
             if "." in p or "[" in p:
                 return None
             segs.append(p)
@@ -698,9 +696,28 @@ def random_logger_cases(r: random.Random, n: int, defaults: list):
                "secrets": sorted(secrets_in(env)), "py_covered": py_covered(env, eff, derived), "label": f"random-logger#{i}"}
 
 
+def corpus_cases():
+    """witnesses of the two defects found at design time and since fixed in /repo (DESIGN §6 F12, F13); run first"""
+    # F13: an index before the start of a list raised IndexError and the logger fell back to the *unredacted* env
+    env = {"subject": {"attrs": {"password": "~S01~"}}, "items": []}
+    specs = [{"type": "redact_fields", "fields": ["items[-1].x", "subject.attrs.password"]}]
+    for aj in (False, True):
+        yield {"kind": "logger", "cfg": {**BASE_CFG, "redactions": specs, "as_json": aj}, "draw": 0.5, "secrets": ["~S01~"],
+               "payload": {"decision": "deny", "allowed": False, "env": env}, "py_covered": ["~S01~"], "label": "corpus/F13"}
+    yield {"kind": "redact", "env": env, "specs": specs, "in_place": False, "secrets": ["~S01~"], "py_covered": ["~S01~"],
+           "label": "corpus/F13-direct"}
+    # F12: the bound was compared with len(str) (characters): a non-ASCII env above the bound in bytes was emitted in full
+    env2 = {"name": "é" * 9}
+    chars = len(json.dumps(env2, ensure_ascii=False))
+    for b in (chars, chars + 1, jsize(env2) - 1, jsize(env2)):
+        yield {"kind": "logger", "cfg": {**BASE_CFG, "max_env_bytes": b}, "draw": 0.5, "secrets": [],
+               "payload": {"decision": "permit", "allowed": True, "env": env2}, "label": f"corpus/F12/{b}"}
+
+
 def all_cases(run: lib.Run, defaults: list, scale: int = 1):
     quick = run.tier == "quick"
     if scale == 1:
+        yield from corpus_cases()
         yield from pyint_cases(quick)
         yield from fnum_cases()
         yield from setpath_cases(quick)
@@ -708,9 +725,9 @@ def all_cases(run: lib.Run, defaults: list, scale: int = 1):
         yield from sampling_cases()
         yield from priority_cases(defaults)
     r = random.Random(run.seed * 7919 + 19 + (scale - 1) * 104729)
-    yield from random_redact_cases(r, (2500 if quick else 30000) * scale)
-    yield from size_cases(r, (250 if quick else 3000) * scale, defaults)
-    yield from random_logger_cases(r, (2500 if quick else 30000) * scale, defaults)
+    yield from random_redact_cases(r, (8000 if quick else 60000) * scale)
+    yield from size_cases(r, (800 if quick else 6000) * scale, defaults)
+    yield from random_logger_cases(r, (8000 if quick else 60000) * scale, defaults)
 
 
 # ----------------------------------------------------------------------------- shrinking
@@ -783,7 +800,9 @@ def shrink(c: dict, defaults: list, budget: int = 150) -> dict:
                 cur = with_env(cur, cand)
                 progress = True
                 break
-    return cur
+    e = get_env(cur)
+    trimmed = {**cur, "secrets": sorted(secrets_in(e)) if isinstance(e, (dict, list)) else []}
+    return trimmed if _failing(trimmed, defaults) else cur
 
 
 # ----------------------------------------------------------------------------- coverage of the anchored functions
@@ -831,6 +850,7 @@ def anchored_coverage(cases: list[dict]) -> dict:
 def run_cases(run: lib.Run, defaults: list, scale: int = 1, keep: list | None = None) -> None:
     batch: list[dict] = []
     kept: dict[str, int] = {}
+    stride = 5 if run.tier == "quick" else 40   # every stride-th case of each kind is re-run under the line tracer
 
     def flush():
         for c, out, ans in evaluate(batch, defaults):
@@ -861,7 +881,10 @@ def run_cases(run: lib.Run, defaults: list, scale: int = 1, keep: list | None = 
         batch.append(c)
         if keep is not None and c["kind"] in ("setpath", "redact", "logger"):
             kept[c["kind"]] = kept.get(c["kind"], 0) + 1
-            if kept[c["kind"]] % 5 == 0 and len(keep) < 3000:
+            rare = c["kind"] == "logger" and c["cfg"].get("redactions") is not None and spec_paths(c["cfg"]["redactions"]) is None
+            if rare:
+                kept["rare"] = kept.get("rare", 0) + 1
+            if (kept[c["kind"]] % stride == 0 and kept[c["kind"]] // stride <= 1500) or (rare and kept["rare"] <= 40):
                 keep.append(c)
         if len(batch) >= 4000:
             flush()
